@@ -184,6 +184,14 @@ class TFLiteSubgraph:
                 # Attach the actual nng subgraphs to the op
                 init_subgraph_index = op.attrs["init_subgraph_index"]
                 op.attrs["subgraph"] = (self.graph.nng.subgraphs[init_subgraph_index],)
+            if op_type == Op.If:
+                # Attach the actual nng subgraphs to the op
+                then_subgraph_index = op.attrs["then_subgraph_index"]
+                else_subgraph_index = op.attrs["else_subgraph_index"]
+                op.attrs["subgraph"] = (
+                    self.graph.nng.subgraphs[then_subgraph_index],
+                    self.graph.nng.subgraphs[else_subgraph_index],
+                )
 
             if op_type == Op.Reshape:
                 if "new_shape" in op.attrs["attribute_read_error"] and len(inputs) > 1:
